@@ -268,7 +268,7 @@ func dynOwners(p *Program, fn *ssa.Function) []string {
 	if knownFuncs[name] {
 		return []string{name}
 	}
-	return append([]string{name}, p.siteOwners(fn)...)
+	return append([]string{name, p.FuncName(fn)}, p.siteOwners(fn)...)
 }
 
 func isExternalDynamic(p *Program, fn *ssa.Function, callee string) bool {
